@@ -1313,9 +1313,12 @@ class AutoMap:
         self.out, self.msg, self.field, self.local_codec = out, msg, field, local_codec
         self.elem_requires = elem_requires      # fn(element term) -> z3 Bool: what the body may rely on for every element
 
+    def spec(self, always_normal=False):
+        return contract(self.invariant, self.requires if self.elem_requires else None,
+                        self.lemmas if self.elem_requires else None, always_normal=always_normal)
+
     def install(self):
-        E.LOOPS[(self.mod, self.qual, self.ordinal)] = contract(self.invariant, self.requires if self.elem_requires else None,
-                                                                self.lemmas if self.elem_requires else None)
+        E.LOOPS[(self.mod, self.qual, self.ordinal)] = self.spec()
 
     def lemmas(self, it, fr, ctx):
         src = ctx.iter
@@ -1340,9 +1343,7 @@ class AutoMap:
             if self.msg is not None:
                 env2[self.msg] = Msg.default(fr.env[self.msg].schema)
             else:
-                cur_out = fr.env[self.out]
-                env2[self.out] = CodecList.empty(cur_out.codec) if isinstance(cur_out, CodecList) else \
-                    SymList(z3.IntVal(0), z3.K(z3.IntSort(), _default_of(cur_out.elem_sort())), cur_out.elem)
+                env2[self.out] = []         # scratch output: a plain list that receives the one appended value
             fr2 = E.Frame(fr.mod, env2, func=fr.func, parent=fr.parent)
             if self.elem_requires is not None:
                 # the generic element is an arbitrary element satisfying the loop's `requires` (the constants are fresh)
@@ -1355,6 +1356,13 @@ class AutoMap:
             except (E.PyBreak, E.PyReturn, PyRaise) as e:
                 raise Unsupported('%s loop %d is not a plain map loop (%s in the body)' % (self.qual, self.ordinal, type(e).__name__))
             o = self._out(env2)
+            if isinstance(o, list):
+                if len(o) != 1:
+                    raise Unsupported('%s loop %d does not append exactly one element per iteration' % (self.qual, self.ordinal))
+                if self.local_codec is None:
+                    self.local_codec = result_codec(o[0])       # the record sort of the produced values, from the first one
+                terms.append(z3.simplify(self.local_codec.term(o[0])))
+                continue
             n = z3.simplify(o.n) if z3.is_expr(o.n) else z3.IntVal(o.n)
             if not (z3.is_int_value(n) and n.as_long() == 1):
                 raise Unsupported('%s loop %d does not append exactly one element per iteration' % (self.qual, self.ordinal))
@@ -1363,12 +1371,12 @@ class AutoMap:
 
     def invariant(self, it, fr, ctx):
         if ctx.phase == 'init':
+            ctx.summary = self.summarise(it, fr, ctx)
             if self.msg is None and isinstance(fr.env[self.out], list):
                 if fr.env[self.out]:
                     raise Unsupported('output list of %s loop %d is not empty at loop entry' % (self.qual, self.ordinal))
                 fr.env[self.out] = CodecList.empty(self.local_codec)
                 ctx.entry_vals[self.out] = CodecList.empty(self.local_codec)
-            ctx.summary = self.summarise(it, fr, ctx)
         view, cases, terms = ctx.summary
         if ctx.phase == 'head' and self.msg is not None:
             reshape_havoced(fr.env[self.msg], ctx.entry_vals[self.msg], {self.field})
@@ -1395,7 +1403,7 @@ class AutoMap:
         return cl
 
 
-def frame_only(msg, changed):
+def frame_only(msg, changed, always_normal=False):
     """loop contract stating only that every field of message variable `msg` outside `changed` keeps its entry value"""
     def inv(it, fr, ctx):
         if msg is None:
@@ -1403,7 +1411,7 @@ def frame_only(msg, changed):
         if ctx.phase == 'head':
             reshape_havoced(fr.env[msg], ctx.entry_vals[msg], set(changed))
         return msg_frame(fr.env[msg], ctx.entry_vals[msg], set(changed))
-    return contract(inv)
+    return contract(inv, always_normal=always_normal or msg is None)
 
 
 # =========================================================================================== small terms for havoced messages
@@ -1512,12 +1520,14 @@ def _poison_getattr(it, v, a):
 _chain('value_getattr_hook', _poison_getattr)
 
 
-def contract(invariant, requires=None, lemmas=None):
+def contract(invariant, requires=None, lemmas=None, always_normal=False):
     """LoopSpec from  invariant(it, fr, ctx) -> clauses,  requires(it, fr, ctx) -> clauses evaluated at loop entry
     (main runs: obligations; unit: assumptions)  and  lemmas(it, fr, ctx, clauses) -> instance facts at the head."""
     def inv(it, fr, ctx):
         run = it.run
         mode = MODE['loops']
+        if always_normal and mode == 'summary':
+            mode = 'normal'         # a loop without a unit of its own: the plain invariant rule, in place
         cl = invariant(it, fr, ctx)
         if ctx.phase == 'init' and requires is not None:
             for nm, f in requires(it, fr, ctx):
@@ -1604,36 +1614,115 @@ M.class_attr_value = _class_attr_value
 _prev_sfm = M.symbolic_filter_map
 
 
+OBJ_CODECS = {}      # class name -> codec of the records a map may produce (registered by the contracts)
+
+
+def result_codec(v):
+    """codec of the values a map produces, from one of them"""
+    if isinstance(v, Msg):
+        return MsgCodec(v.schema)
+    if isinstance(v, Obj):
+        if abstract_term(v) is not None and abstract_codec(v) is not None:
+            return abstract_codec(v)
+        nm = v.cls.name if isinstance(v.cls, ClassInfo) else str(v.cls)
+        if nm in OBJ_CODECS:
+            return OBJ_CODECS[nm]
+        raise Unsupported('a map over a list of symbolic length produces %s objects, for which no record codec is registered' % nm)
+    if isinstance(v, bool) or (z3.is_expr(v) and v.sort() == z3.BoolSort()):
+        return Scalar('bool')
+    if isinstance(v, int) or (z3.is_expr(v) and v.sort() == z3.IntSort()):
+        return Scalar('int')
+    if isinstance(v, float) or (z3.is_expr(v) and v.sort() == xreal.XReal):
+        return Scalar('float')
+    if isinstance(v, str) or (z3.is_expr(v) and v.sort() == Str):
+        return Scalar('str')
+    raise Unsupported('a map over a list of symbolic length produces %r' % (v,))
+
+
+def map_symlist(it, xs, fn, what='map'):
+    """`[fn(x) for x in xs]` / `list(map(fn, xs))` for a list of symbolic length -- the same map as a for-loop that appends
+    fn(x): fn is executed once per *generic* element case (see SourceView.cases); the result list has the length of xs
+    and r[j] = T(xs[j]) with T the summary.  This is the definition of the comprehension, not an assumption about fn:
+    T is derived from the real code on every run, and a body that branches on more than the case split is refused."""
+    run = it.run
+    view = SourceView(xs)
+    cases = view.cases('m')
+    terms, codec = [], None
+    for guard, gens, subst in cases:
+        npc = len(run.pc)
+        try:
+            v = fn(view.target_value(gens))
+        except PyRaise as e:
+            raise Unsupported('%s over a list of symbolic length: the element function raises %s for some element' % (what, E.class_name(e.exc.cls)))
+        if len(run.pc) != npc:
+            raise Unsupported('%s over a list of symbolic length: the element function branches on the element beyond the generic case split' % what)
+        if codec is None:
+            codec = result_codec(v)
+        terms.append(z3.simplify(codec.term(v)))
+    arr = run.fresh('mapped', z3.ArraySort(z3.IntSort(), codec.sort))
+    if isinstance(codec, MsgCodec):
+        r = SymList(xs.n, arr, codec.schema)
+    elif isinstance(codec, Scalar):
+        r = SymList(xs.n, arr, codec.kind)
+    else:
+        r = CodecList(xs.n, arr, codec)
+    j = z3.Int('j!mp')
+
+    def F(jj):
+        res = None
+        for (guard, gens, subst), t in reversed(list(zip(cases, terms))):
+            sub = subst(jj)
+            tt = z3.substitute(t, *sub) if sub else t
+            res = tt if res is None else z3.If(guard(jj), tt, res)
+        return res
+    run.axiom(z3.ForAll([j], z3.Implies(z3.And(j >= 0, j < xs.n), arr[j] == F(j))))
+    r.src, r.parent = z3.Lambda([j], j), xs
+    r.cond_at, r.elt_at = (lambda i: z3.BoolVal(True)), F
+    return r
+
+
 def _map_comprehension(it, fr, e, xs):
     """a list comprehension over an array-list *without* an `if`: the result has the same length and r[j] = e(xs[j])
     (the filter encoding's increasing index map is the identity here; stating it directly avoids an inductive argument)"""
     gen = e.generators[0]
-    if gen.ifs or isinstance(xs, (PairList, CodecList)):
+    if gen.ifs:
         return _prev_sfm(it, fr, e, xs)
     run = it.run
-    J = run.fresh('cj', z3.IntSort())
-    fr2 = E.Frame(fr.mod, {}, parent=fr)
-    it.pure += 1
-    try:
-        it.assign(fr2, gen.target, xs.get(J))
-        eltv = it.eval(fr2, e.elt)
-    finally:
-        it.pure -= 1
-    if isinstance(eltv, Msg):
-        elem, eterm = eltv.schema, eltv.pack()
-    else:
-        eterm = E.to_z3(eltv)
-        elem = {z3.IntSort(): 'int', z3.BoolSort(): 'bool', Str: 'str', xreal.XReal: 'float', pm.PyObj: 'pyobj'}.get(eterm.sort())
-        if elem is None:
-            return _prev_sfm(it, fr, e, xs)
-    arr = run.fresh('marr', z3.ArraySort(z3.IntSort(), eterm.sort()))
-    r = SymList(xs.n, arr, elem)
-    j = z3.Int('j!mc')
-    r.src, r.parent = z3.Lambda([j], j), xs
-    r.cond_at, r.elt_at = (lambda i: z3.BoolVal(True)), (lambda i: z3.substitute(eterm, (J, i)))
-    run.filters = getattr(run, 'filters', []) + [M.snapshot(r)]
-    run.axiom(z3.ForAll([j], z3.Implies(z3.And(j >= 0, j < xs.n), arr[j] == r.elt_at(j))))
-    return r
+    if not isinstance(xs, (PairList, CodecList)):
+        # scalar / message lists: the element expression as a term of the index (pure mode); anything it cannot express
+        # (calls that build objects, branches) goes to the generic-case summary below
+        try:
+            J = run.fresh('cj', z3.IntSort())
+            fr2 = E.Frame(fr.mod, {}, parent=fr)
+            it.pure += 1
+            try:
+                it.assign(fr2, gen.target, xs.get(J))
+                eltv = it.eval(fr2, e.elt)
+            finally:
+                it.pure -= 1
+            eterm = elem = None
+            if isinstance(eltv, Msg):
+                elem, eterm = eltv.schema, eltv.pack()
+            elif z3.is_expr(eltv) or isinstance(eltv, (bool, int, float, str)):
+                eterm = E.to_z3(eltv)
+                elem = {z3.IntSort(): 'int', z3.BoolSort(): 'bool', Str: 'str', xreal.XReal: 'float', pm.PyObj: 'pyobj'}.get(eterm.sort())
+            if elem is not None:
+                arr = run.fresh('marr', z3.ArraySort(z3.IntSort(), eterm.sort()))
+                r = SymList(xs.n, arr, elem)
+                j = z3.Int('j!mc')
+                r.src, r.parent = z3.Lambda([j], j), xs
+                r.cond_at, r.elt_at = (lambda i: z3.BoolVal(True)), (lambda i: z3.substitute(eterm, (J, i)))
+                run.filters = getattr(run, 'filters', []) + [M.snapshot(r)]
+                run.axiom(z3.ForAll([j], z3.Implies(z3.And(j >= 0, j < xs.n), arr[j] == r.elt_at(j))))
+                return r
+        except Unsupported:
+            pass
+
+    def fn(value):
+        fr2 = E.Frame(fr.mod, {}, parent=fr)
+        it.assign(fr2, gen.target, value)
+        return it.eval(fr2, e.elt)
+    return map_symlist(it, xs, fn, 'list comprehension')
 
 
 M.symbolic_filter_map = _map_comprehension
@@ -1788,3 +1877,75 @@ def _b_getattr(it, args, kw):
 
 
 M.BUILTINS['getattr'] = Builtin('getattr', _b_getattr)
+
+
+# =========================================================================================== map(f, xs) over an array-list
+_prev_map = M.BUILTINS['map'].fn
+
+
+def _b_map(it, args, kw):
+    if len(args) == 2 and isinstance(args[1], SymList) and M.try_iterate(it, args[1]) is None:
+        return map_symlist(it, args[1], lambda v: it.call(args[0], [v], {}), 'map()')
+    return _prev_map(it, args, kw)
+
+
+M.BUILTINS['map'] = Builtin('map', _b_map)
+
+
+# =========================================================================================== map loops recognised by role
+# A for-loop over a list of symbolic length for which no contract was registered is given one when it is a *map loop by
+# role*: its body appends / adds to exactly one list (a local list or a repeated field of a message variable) and mutates
+# nothing else that is visible.  The AutoMap contract is derived from the body and checked like every other (init /
+# preserve obligations), so recognising too much can only make a proof fail, never succeed wrongly.
+_APPENDERS = ('append', 'add')
+
+
+def _map_outputs(node):
+    outs, other = set(), False
+    for n in _ast.walk(_ast.Module(body=node.body, type_ignores=[])):
+        if isinstance(n, _ast.Call) and isinstance(n.func, _ast.Attribute) and n.func.attr in E.MUTATORS:
+            tgt = n.func.value
+            if n.func.attr in _APPENDERS and isinstance(tgt, _ast.Name):
+                outs.add(('local', tgt.id))
+            elif n.func.attr in _APPENDERS and isinstance(tgt, _ast.Attribute) and isinstance(tgt.value, _ast.Name):
+                outs.add(('msg', tgt.value.id, tgt.attr))
+            elif n.func.attr == 'CopyFrom':
+                continue            # building the element before it is appended
+            else:
+                other = True
+    return outs, other
+
+
+def infer_loop_contract(it, fr, s, key):
+    if not isinstance(s, _ast.For):
+        return None
+    outs, other = _map_outputs(s)
+    if other or len(outs) != 1:
+        return None
+    out = next(iter(outs))
+    if out[0] == 'local':
+        if not isinstance(fr.env.get(out[1]), (list, SymList)):
+            return None
+        am = AutoMap(key[0], key[1], s, key[2], out[1])
+    else:
+        if not isinstance(fr.env.get(out[1]), Msg) or out[2] not in fr.env[out[1]].schema.fields:
+            return None
+        am = AutoMap(key[0], key[1], s, key[2], None, msg=out[1], field=out[2])
+    return am.spec(always_normal=True)
+
+
+_orig_symbolic_loop = E.Interp.symbolic_loop
+
+
+def _symbolic_loop(self, fr, s, iterable):
+    key = self.loop_key(fr, s)
+    if key not in E.LOOPS:
+        spec = infer_loop_contract(self, fr, s, key)
+        if spec is not None:
+            E.LOOPS[key] = spec
+            self.run.assumed.add('loop %s #%d of %s recognised as a map loop by role (contract derived from its body and checked)'
+                                 % (key[1], key[2], key[0].rsplit('.', 1)[-1]))
+    return _orig_symbolic_loop(self, fr, s, iterable)
+
+
+E.Interp.symbolic_loop = _symbolic_loop
